@@ -1,4 +1,5 @@
 import MitmVerif.Model.C41_Spec
+import MitmVerif.Model.C41_Lib
 import Driver.Proto
 open MitmVerif Driver MitmVerif.C41
 
@@ -30,23 +31,32 @@ def askO (t : Tab) (alt : Bool) (tag : String) (args : List Bytes) : Option Byte
 
 def optArg (o : Option Bytes) : Bytes := match o with | some b => 0x2b :: b | none => [0x21]
 
-def mkLib (t : Tab) (alt : Bool) : Lib where
+def isWs (x : UInt8) : Bool := x.toNat = 32 || (9 ≤ x.toNat && x.toNat ≤ 13) || (28 ≤ x.toNat && x.toNat ≤ 31)
+def stripAscii (b : Bytes) : Bytes := ((b.dropWhile isWs).reverse.dropWhile isWs).reverse
+
+/-- the primitives: ASCII cases are computed, everything else is looked up in the answers supplied with the case -/
+def mkPrim (t : Tab) (alt : Bool) : Prim where
   sdec := fun b => if isAscii b then b else askB t alt "sd" [b]
   senc := fun s => if isAscii s then some s else askO t alt "se" [s]
   upper := fun s => askB t alt "up" [s]
+  lower := fun s => if isAscii s then asciiLower s else askB t alt "lo" [s]
+  strip := fun s => if isAscii s then stripAscii s else askB t alt "st" [s]
   b64enc := fun b => askB t alt "be" [b]
   b64dec := fun s => askO t alt "bd" [s]
-  mostlyBin := fun b => match t.lookup (key "mb" [b]) with
+  utf8Valid := fun b => if isAscii b then true else match t.lookup (key "u8" [b]) with
     | some v => v = "01"
     | none => alt
   ceDec := fun c b => askO t alt "cd" [c, b]
   ceEnc := fun c b => askO t alt "ce" [c, b]
-  infer := fun c b => askB t alt "in" [c, b]
   csDec := fun c b => askO t alt "xd" [c, b]
   csEnc := fun c s => askO t alt "xe" [c, s]
-  ctUtf8 := fun c => askB t alt "cu" [c]
+  reMeta := fun b => askO t alt "rm" [b]
+  reXml := fun b => askO t alt "rx" [b]
+  reCss := fun b => askO t alt "rc" [b]
   urlHostport := fun u => askO t alt "uh" [u]
   urlPretty := fun u h => askB t alt "pu" [u, optArg h]
+
+def mkLib (t : Tab) (alt : Bool) : Lib := C41.mkLib (mkPrim t alt)
 
 def parseHdrs (s : String) : Option Hdrs :=
   if s = "-" then some [] else
@@ -79,7 +89,10 @@ def run (t : Tab) (alt : Bool) (f : Flow) : String :=
     | some [f'] => showFlow f'
     | _ => "fail"
   let g := String.ofList ((guardBits lib f).map (fun b => if b then '1' else '0'))
-  s!"E {showEntry e} I {i} G {g}"
+  -- predictions of the transcribed helpers (compared with the real functions by the harness)
+  let c := getContent lib f.resp
+  let p := s!"{if lib.mostlyBin c then 1 else 0} {showBytes (lib.infer (ctOf lib f.resp) c)} {showBytes (lib.infer (ctOf lib f.req) [])} {showBytes (lib.ctUtf8 (ctOf lib f.req))}"
+  s!"E {showEntry e} I {i} G {g} P {p}"
 
 def step (line : String) : String :=
   match fields line with
